@@ -1,6 +1,7 @@
 """Black-box leg for the parts of task.rs the scripted executor bypasses (run_task, read_depfile):
 real n2 binary, real /bin/sh commands.  Used by C09 and C15."""
 import collections
+import time
 import shutil
 import tempfile
 
@@ -448,5 +449,63 @@ def showincludes_bytes_leg(run, n2):
             if "ran " not in out or rc != 0:
                 run.report_failure(None, "editing header %r, reported through /showIncludes, did not rebuild the step: %r" % (nm, out[-200:]), where)
                 break
+    finally:
+        shutil.rmtree(d, ignore_errors=True)
+
+
+def symlink_leg(run, n2):
+    """inputs reached through symbolic links (declared input, discovered dependency, a linked directory): editing the file the
+    link points to changes what the command reads, so the step must re-run (C02: never skips a step whose inputs changed)"""
+    d = tempfile.mkdtemp(prefix="n2verif-task-%d-" % os.getpid())
+    try:
+        os.makedirs(os.path.join(d, "real"))
+        write(d, "real/src.txt", "version one\n", 1000000000)
+        write(d, "real/hdr.h", "h1\n", 1000000000)
+        os.symlink("real/src.txt", os.path.join(d, "src.txt"))
+        os.symlink("real", os.path.join(d, "linkdir"))
+        write(d, "cc.sh", "#!/bin/sh\n# $1 = out, $2 = in; reports linkdir/hdr.h as a dependency\nprintf '%s: linkdir/hdr.h\\n' $1 > $1.d\ncat $2 linkdir/hdr.h > $1\n")
+        os.chmod(os.path.join(d, "cc.sh"), 0o755)
+        write(d, "build.ninja", "rule cc\n  command = ./cc.sh $out $in\n  depfile = $out.d\nrule cp\n  command = cp $in $out\nbuild mid.txt: cc src.txt\nbuild out.txt: cp mid.txt\n")
+        where = {"project": "src.txt -> real/src.txt (symlink), linkdir -> real (symlinked directory holding a reported header)"}
+        rc, out = n2run(n2, d, ["out.txt"])
+        if rc != 0 or open(os.path.join(d, "out.txt")).read() != "version one\nh1\n":
+            run.report_failure(None, "first build through symlinks failed: rc=%d %r" % (rc, out[-200:]), where)
+            return
+        rc, out = n2run(n2, d, ["out.txt"])
+        if "no work to do" not in out:
+            run.report_failure(None, "second build is not a null build: %r" % out[-200:], where)
+        for name, content, want in (("real/src.txt", "version two\n", "version two\nh1\n"), ("real/hdr.h", "h2\n", "version two\nh2\n")):
+            write(d, name, content, 1000000100 if name.endswith("txt") else 1000000200)
+            rc, out = n2run(n2, d, ["out.txt"])
+            got = open(os.path.join(d, "out.txt")).read()
+            if rc != 0 or got != want:
+                run.report_failure(None, "after editing %s (reached through a symbolic link) the successful build leaves out.txt=%r; a clean build gives %r (%s)" % (
+                    name, got, want, out.strip().split("\n")[-1][:60]), dict(where, output=out[-300:]))
+                return
+    finally:
+        shutil.rmtree(d, ignore_errors=True)
+
+
+def selfwrite_leg(run, n2):
+    """a command that rewrites a file it also reports as a dependency (an undeclared by-product): the record made after the run
+    must describe the tree as the command left it, so the invocation right after a successful one runs nothing"""
+    d = tempfile.mkdtemp(prefix="n2verif-task-%d-" % os.getpid())
+    try:
+        write(d, "cc.sh", "#!/bin/sh\n# rewrites gen.h on every run and lists it in the depfile\necho \"gen $(cat in.c)\" > gen.h\nprintf '%s: gen.h\\n' $1 > $1.d\ncat in.c gen.h > $1\n")
+        os.chmod(os.path.join(d, "cc.sh"), 0o755)
+        write(d, "build.ninja", "rule cc\n  command = ./cc.sh $out\n  depfile = $out.d\nbuild out.o: cc in.c\n")
+        write(d, "in.c", "v1\n", 1000000000)
+        where = {"project": "out.o <- cc.sh: rewrites gen.h and reports it in the depfile"}
+        seq = []
+        rc, out = n2run(n2, d, ["out.o"]); seq.append(out.strip().split("\n")[-1])
+        rc, out = n2run(n2, d, ["out.o"]); seq.append(out.strip().split("\n")[-1])
+        time.sleep(0.02)
+        write(d, "in.c", "v2\n")
+        rc, out = n2run(n2, d, ["out.o"]); seq.append(out.strip().split("\n")[-1])
+        for _ in range(2):
+            rc, out = n2run(n2, d, ["out.o"]); seq.append(out.strip().split("\n")[-1])
+        want = ["ran 1 task", "no work to do", "ran 1 task", "no work to do", "no work to do"]
+        if not all(w in s_ for w, s_ in zip(want, seq)):
+            run.report_failure(None, "a command rewrites a file it reports as a dependency; build, build, edit, build, build, build gave %r (expected %r)" % (seq, want), where)
     finally:
         shutil.rmtree(d, ignore_errors=True)
